@@ -44,14 +44,14 @@ P = {
              tech="Lean 4 proof over regenerated grammar tables + correspondence + independent validator"),
  "C06": dict(text="Corollary of C01's theorem: the relation under which the pipeline is invariant (Iso SameIdent) constrains only element, "
              "mass, radical and the neighbour sets (C06_identity_only, C06_identity_only_renumbered, C06_sameIdent_ignores). Carried "
-             "down to the text of the files: two molfile texts, each V3000 or V2000, with any header lines, any of the three line- "
+             "down to the text of the files: two molfile texts, each V3000 or V2000, with any header lines, any of the three line-"
              "ending styles, any permitted spelling of the table and anything after it, that state molecules of the same identity "
              "(same element/mass/radical per atom position, D = hydrogen-2, same bonded pairs in any order and orientation) get the "
              "same string whatever they say about charges, bond types, annotations and coordinates (C06_files_same_string, "
-             "C06_v3000_file_readsAs, C06_v2000_file_readsAs, C06_line_endings). Probe: paired molfile renderings differing in non- "
+             "C06_v3000_file_readsAs, C06_v2000_file_readsAs, C06_line_endings). Probe: paired molfile renderings differing in non-"
              "identity data, line endings in memory and through graph_from_file.",
-             note="the file-level theorem takes atom positions as given (consecutive V3000 indices); arbitrary index values are covered at "
-                  "graph level by C06_identity_only_renumbered + C07_consecutive_renumbering and by the probe.",
+             note="V3000 files with ANY pairwise distinct atom indices in any order are covered at file level too "
+                  "(C06_v3000_file_any_indices, C06_graphs_of_same_identity); the bliss contract is an explicit hypothesis (CanonOracle).",
              tech="Lean 4 proof (corollary of C01, file level through both reader models) + correspondence + paired-rendering probe"),
  "C07": dict(text="Proved about the reader model, for the whole connection table under every spelling the format permits "
              "(C07_connection_table_every_spelling: blank runs, continuation at ANY split points, any order of key=value properties "
